@@ -76,6 +76,18 @@ PLANS = {
         "assumptions": COMMON_ASSUMPTIONS + ["zero-width insertions are not generated (not covered by the statement)",
                                              "the first character after a deletion at the very start may map to 0 (start->start wins)"],
     },
+    "C04": lambda tier: {
+        "level": "exploration",
+        "stages": [main_stage(40, 300, tier)],
+        "require": ["lookups_with_matches", "exact_lookups", "trie_accesses_seen_by_hook", "word_id_table_accesses_seen_by_hook"],
+        "rule": "seeded dictionary stacks (system + 0..14 user layers; keys sharing prefixes, prefix chains, 2-127 homographs, astral / "
+                "single-byte keys, non-indexed rows, bulk lexicons of 100-4000 keys, thorough: 20k-70k keys so word-id-table offsets cross "
+                "255 and 65535; loaded aligned and from an odd address) x texts x EVERY byte offset (also inside characters): the multiset "
+                "of (dictionary, word number, end) from LexiconSet::lookup is compared with an exact-match scan of the source CSV keys; "
+                "MorphemeList::lookup(q) with rows whose key == q; hook H3 must record no out-of-range trie / table access. "
+                "distinct_nontrivial = distinct (world,text,offset) with at least one expected match",
+        "assumptions": COMMON_ASSUMPTIONS,
+    },
 }
 
 
